@@ -193,11 +193,14 @@ def quiet_call(fn, *a, **kw):
         sys.stdout, sys.stderr = so, se
 
 
-def discover(desc, ctx, inc_rex=False, path=None):
+def discover(desc, ctx, inc_rex=False, path=None, db=None):
     from tdda.constraints.db.constraints import discover_db_table
     if path is None:
         path = os.path.join(ctx.fresh_dir(), 'd.sqlite3')
         create_db(desc, path)
+    if db is not None:      # the caller's long-lived connection
+        return quiet_call(discover_db_table, 'sqlite', db, 't',
+                          inc_rex=inc_rex)
     db = connect(path)
     try:
         return quiet_call(discover_db_table, 'sqlite', db, 't',
@@ -206,8 +209,11 @@ def discover(desc, ctx, inc_rex=False, path=None):
         db.connection.close()
 
 
-def verify(path, tdda_path):
+def verify(path, tdda_path, db=None):
     from tdda.constraints.db.constraints import verify_db_table
+    if db is not None:
+        return quiet_call(verify_db_table, 'sqlite', db, 't', tdda_path,
+                          testing=True)
     db = connect(path)
     try:
         return quiet_call(verify_db_table, 'sqlite', db, 't', tdda_path,
